@@ -386,8 +386,8 @@ def changed_sources():
 LAST_EXTRACT = {}
 # which properties' theorems (Props/Cxx "Translation tie") consume the translated functions of a source file
 TRANSLATED_FILES = {
-    "gamestate.rs": ["C02", "C04", "C05"], "position.rs": ["C01", "C02", "C04", "C15"],
-    "piece.rs": ["C04", "C05", "C09", "C16"], "move_struct.rs": ["C08", "C09", "C15"],
+    "gamestate.rs": ["C02", "C04", "C05", "C15"], "position.rs": ["C01", "C02", "C04", "C15"],
+    "piece.rs": ["C04", "C05", "C09", "C11", "C15", "C16", "C17", "C20"], "move_struct.rs": ["C08", "C09", "C15"],
     "search.rs": ["C09", "C15", "C19"], "scores.rs": ["C16"],
 }
 
